@@ -110,8 +110,9 @@ class Sphere(Domain):
         return points[index]
 
     def _append_random(self, points_inside, n, params, device):
-        if len(points_inside) == n:
-            return points_inside
+        if len(points_inside) >= n:
+            # the grid can contain more than n points, just take the first n
+            return points_inside[:n]
         random_points = self.sample_random_uniform(
             n=n - len(points_inside), params=params, device=device
         )
